@@ -297,6 +297,29 @@ func paletteSweep() {
 	}
 }
 
+// attributeSweep: every combination of the seven attribute bits, 16 cells per frame.
+func attributeSweep() {
+	cfg := &config{Name: "attributes", Cols: 16, Rows: 1}
+	w := open(cfg)
+	defer w.close()
+	for base := 0; base < 128; base += 16 {
+		win := w.vx.Window()
+		for i := 0; i < 16; i++ {
+			c := vaxis.Cell{Character: ch("a", 1), Style: vaxis.Style{Attribute: vaxis.AttributeMask((base + i) << 1)}}
+			win.SetCell(i, 0, c)
+			w.m.SetCell(i, 0, c)
+		}
+		w.vx.Render()
+		r.Count("attribute_frames", 1)
+		snap := w.con.M.VerifSnapshot()
+		if mm := w.m.Compare(emucon.View{S: snap}, w.prof); mm != nil {
+			r.Violation(fmt.Sprintf("C12|emulator|attributes|%s|want=%s|shows=%s", mm.Clause, mm.WantKind, mm.GotKind), base,
+				detail{Search: "attributes", Screen: "16x1", Frames: []string{fmt.Sprintf("attribute masks %d..%d", base, base+15)}, Stage: "emulator", Why: fmt.Sprintf("row %d col %d: %s", mm.Row, mm.Col, mm.Detail)})
+			return
+		}
+	}
+}
+
 func accessorCheck() {
 	cfg := &config{Name: "acc", Cols: 4, Rows: 2}
 	w := open(cfg)
@@ -360,6 +383,7 @@ func main() {
 		if arg == "accessors" {
 			accessorCheck()
 			paletteSweep()
+			attributeSweep()
 			r.WorkerDone()
 		}
 		name := strings.SplitN(arg, ":", 3)[1]
